@@ -137,12 +137,24 @@ def build_overlay(prop, root):
         crates_with_model.add(rel.split("/")[0])
     for c in prop.get("model_crates", []):
         crates_with_model.add(c)
+    feats = prop.get("model_features", [])
+    fe = ", features = [" + ", ".join(f'"{x}"' for x in feats) + "]" if feats else ""
     for crate in crates_with_model:
         ct = os.path.join(src, crate, "Cargo.toml")
         text = open(ct).read()
         if "verif_model" not in text:
-            text = text.replace("[dependencies]", '[dependencies]\nverif_model = { path = "../verif_model" }', 1)
+            text = text.replace("[dependencies]", '[dependencies]\nverif_model = { path = "../verif_model"' + fe + ' }', 1)
             open(ct, "w").write(text)
+    if prop.get("patch_bytes"):
+        # cfg(kani)-only simplification of bytes::Bytes (static/leaked storage, no vtable dispatch,
+        # no integer->pointer round trip); identical to upstream when cfg(kani) is off.
+        wt = os.path.join(src, "Cargo.toml")
+        text = open(wt).read()
+        if "[patch.crates-io]" in text:
+            text = text.replace("[patch.crates-io]", '[patch.crates-io]\nbytes = { path = "verif_model/bytes-kani" }', 1)
+        else:
+            text += '\n[patch.crates-io]\nbytes = { path = "verif_model/bytes-kani" }\n'
+        open(wt, "w").write(text)
     return src
 
 
